@@ -36,11 +36,33 @@ def run_case(c):
             res["out"] = "<no exception>"
             return res
         b = grex.RegExpBuilder(c["test_cases"]) if c["id"] % 2 == 0 else grex.RegExpBuilder.from_test_cases(c["test_cases"])
+        if "ops" in c:
+            # call history: apply exactly this sequence of setter calls, then build
+            for op in c["ops"]:
+                name = op[0]
+                if name in SETTERS:
+                    SETTERS[name](b)
+                elif name == "e":
+                    b.with_escaping_of_non_ascii_chars(bool(op[1]))
+                elif name == "nane":
+                    b.without_anchors()
+                elif name == "minrep":
+                    b.with_minimum_repetitions(op[1])
+                elif name == "minlen":
+                    b.with_minimum_substring_length(op[1])
+                elif name == "build":
+                    b.build()
+                else:
+                    raise RuntimeError("unknown op " + name)
+            out = b.build()
+            res["out"] = out
+            res["out_again"] = b.build()
+            return res
         flags = c["flags"]
         # setter order must not matter: every other pair of cases applies the setters in reverse order,
         # and escaping is set before or after the other setters
-        order = list(flags) if c["id"] % 4 < 2 else list(reversed(flags))
-        if "e" in flags and c["id"] % 3 == 0:
+        order = list(flags) if (c["id"] // 3) % 4 < 2 else list(reversed(flags))
+        if "e" in flags and (c["id"] // 3) % 2 == 0:
             b.with_escaping_of_non_ascii_chars("u" not in flags)  # overwritten below: last call wins
         for f in order:
             if f in SETTERS:
